@@ -546,11 +546,10 @@ Ltac us_shape pk c b p after fuel hex s1 st k :=
      iter1 c b p (pk sw (Z.of_nat k)) =
      Ret (match us_stepZ hex (nth k s1 0) sw with None => inr (inr false) | Some sw' => inl (pk sw' (Z.of_nat k + 1)) end));
   [ let k := fresh "k" in intros k ? ?; iter_open; unfold us_stepZ, lower;
-    assert (Hl : (Z.of_nat k <? zlen s1) = true) by (unfold zlen; lia);
-    repeat first [ rewrite Hl | rewrite (m_get_eq s1 _ k) by lia | rewrite bind_Ret | progress cbv beta iota ];
+    repeat first [ decide_if | rewrite (m_get_eq s1 _ k) by lia | rewrite bind_Ret | progress cbv beta iota ];
     generalize (nth k s1 0); intro; clear; crush_eq
   | assert (H2 : forall sw, iter1 c b p (pk sw (zlen s1)) = Ret (inr (inl (pk sw (zlen s1)))));
-    [ intros; iter_open; rewrite Z.ltb_irrefl; reflexivity
+    [ intros; iter_open; repeat first [ decide_if | rewrite bind_Ret | progress cbv beta iota ]; reflexivity
     | assert (H3 : forall sw i, after (inl (pk sw i)) = Ret (negb (sw =? 95)));
       [ intros; cbv beta iota; crush_eq
       | rewrite (us_while pk c b p after hex s1 H1 H2 H3 (fun v => eq_refl) fuel k st) by lia; clear H1 H2 H3 ] ] ].
@@ -692,9 +691,8 @@ Ltac pu_shape pk c b p after fuel base0 bv bits ok body :=
           | inl e => inr (inr (pres e)) | inr (n', us') => inl (pk us' n' (Z.of_nat k + 1)) end));
   [ let k := fresh "k" in let ch := fresh "ch" in
     intros k ? ? ?; iter_open; unfold pstep;
-    assert (Hl : (Z.of_nat k <? zlen body) = true) by (unfold zlen; lia);
-    repeat first [ rewrite Hl | rewrite (m_get_eq body _ k) by lia | rewrite bind_Ret | progress cbv beta iota ];
-    generalize (nth k body 0); intros ch; clear Hl;
+    repeat first [ decide_if | rewrite (m_get_eq body _ k) by lia | rewrite bind_Ret | progress cbv beta iota ];
+    generalize (nth k body 0); intros ch;
     destruct ((ch =? 95) && base0) eqn:?; [ mev; reflexivity | ];
     let E := fresh "E" in
     destruct (digit_of ch) as [?d|] eqn:E;
@@ -703,7 +701,7 @@ Ltac pu_shape pk c b p after fuel base0 bv bits ok body :=
     unfold wrap, w64, M64, pres; change (2 ^ 8) with 256; cbn [presult_val presult_kind];
     crush_eq
   | assert (H2 : forall us n, iter1 c b p (pk us n (zlen body)) = Ret (inr (inl (pk us n (zlen body)))));
-    [ intros; iter_open; rewrite Z.ltb_irrefl; reflexivity
+    [ intros; iter_open; repeat first [ decide_if | rewrite bind_Ret | progress cbv beta iota ]; reflexivity
     | assert (H3 : forall us n i, after (inl (pk us n i)) = Ret (pres (frame_end ok (inr (n, us)))));
       [ let us := fresh "us" in intros us ? ?; cbv beta iota; unfold frame_end; destruct us; mev;
         rewrite ?code_underscoreOK by lia; mev; try reflexivity; destruct ok; reflexivity
@@ -717,8 +715,8 @@ Theorem code_ParseUint : forall fuel s base bitSize, (length s < fuel)%nat ->
   g_ParseUint fuel s base bitSize = Ret (pres (parse_uint s base bitSize)).
 Proof.
   intros fuel s base bitSize Hf. open_top g_ParseUint.
-  destruct s as [|c0 t]; [reflexivity|]. rewrite parse_uint_eq. set (s := c0 :: t) in *.
-  decide_if. cbv beta iota. repeat head_let. head_join K1.
+  destruct s as [|c0 t]; [mev; reflexivity|]. decide_if. cbv beta iota. rewrite parse_uint_eq. set (s := c0 :: t) in *.
+  repeat head_let. head_join K1.
   (* the rest of the function, behind the base switch: for every text body and base b that the switch hands over *)
   assert (HK1 : forall body b, 2 <= b <= 36 -> (length body <= length s)%nat ->
             K1 body b = Ret (pres (frame_rest (base =? 0) s bitSize b body))).
